@@ -215,3 +215,50 @@ package tso
 //@ func (*LocalTSOAllocator).GetDCLocation
 //@   assumed
 //@   modifies nothing
+
+// ================= C02: stepping down forgets the in-memory time =================
+// A member that stops serving an allocator (failed window update, lost or resigned leadership) zeroes the oracle's
+// memory, so that it cannot advance or serve from a stale time and window before SyncTimestamp has reloaded the
+// stored bound (SyncTimestamp requires an uninitialised oracle).
+//@ func (*timestampOracle).ResetTimestamp
+//@   props C02
+//@   requires t.tsoMux != nil
+//@   ensures [memory-forgotten] !initialized(t) && t.tsoMux.logical == 0
+//@   modifies t.tsoMux.physical, t.tsoMux.logical, t.tsoMux.updateTime, ghost evres
+//@ func (*GlobalTSOAllocator).Reset
+//@   props C02
+//@   requires gta.timestampOracle != nil && gta.timestampOracle.tsoMux != nil
+//@   ensures [memory-forgotten] !initialized(gta.timestampOracle) && gta.timestampOracle.tsoMux.logical == 0
+//@   modifies gta.timestampOracle.tsoMux.physical, gta.timestampOracle.tsoMux.logical, gta.timestampOracle.tsoMux.updateTime, ghost evres
+//@ func (*LocalTSOAllocator).Reset
+//@   props C02
+//@   requires lta.timestampOracle != nil && lta.timestampOracle.tsoMux != nil
+//@   ensures [memory-forgotten] !initialized(lta.timestampOracle) && lta.timestampOracle.tsoMux.logical == 0
+//@   modifies lta.timestampOracle.tsoMux.physical, lta.timestampOracle.tsoMux.logical, lta.timestampOracle.tsoMux.updateTime, ghost evres
+// The allocator interface as seen by the manager: Reset is one of the two methods above (event allocReset),
+// UpdateTSO one of the UpdateTimestamp wrappers (event allocUpdate).
+//@ func (Allocator).Reset
+//@   assumed
+//@   option event allocReset
+//@   modifies all tsoObject.physical, all tsoObject.logical, all tsoObject.updateTime, ghost evres
+//@ func (Allocator).UpdateTSO
+//@   assumed
+//@   option event allocUpdate
+//@   modifies all tsoObject.physical, all tsoObject.logical, all tsoObject.updateTime, all atomic.Value.v, ghost evres, ghost etcdhas, ghost etcdval, ghost etcdlease, ghost etcdn, ghost etcdhas0, ghost etcdval0, ghost etcdlease0
+// ResetAllocatorGroup: the memory of the group's allocator is reset whenever the group exists - whether or not the
+// leadership is still held at that moment.
+//@ func (*AllocatorManager).ResetAllocatorGroup
+//@   props C02
+//@   requires am != nil && am.mu.allocatorGroups != nil
+//@   ensures [memory-reset-whenever-the-group-exists] in(am.mu.allocatorGroups, dcLocation) && am.mu.allocatorGroups[dcLocation] != nil ==> last("allocReset") > old(evclock[0])
+//@   option event resetGroup
+//@   option nosafety
+//@   modifies all tsoObject.physical, all tsoObject.logical, all tsoObject.updateTime, all election.Leadership.*, all election.lease.*, all atomic.Value.v, ghost evres
+// updateAllocator (one tick of the window updater for one group): a failed update is followed by a reset of the group;
+// a cancelled group's allocator is reset.
+//@ func (*AllocatorManager).updateAllocator
+//@   props C02
+//@   requires am != nil && am.mu.allocatorGroups != nil && ag != nil && ag.leadership != nil && leaseTyped(ag.leadership)
+//@   ensures [failed-update-resets-the-group] last("allocUpdate") > old(evclock[0]) && callres("UpdateTSO", 1) != nil ==> last("resetGroup") > last("allocUpdate")
+//@   option nosafety
+//@   modifies *
